@@ -25,3 +25,76 @@ impl PartialOrdSpecImpl for Uint128 {
         if self.0 < o.0 { Some(Ordering::Less) } else if self.0 == o.0 { Some(Ordering::Equal) } else { Some(Ordering::Greater) }
     }
 }
+// cosmwasm-std 1.x: `+`, `-`, `*`, `/` on Uint128 are checked and abort on overflow / underflow / division by zero
+impl ops::Add for Uint128 { type Output = Uint128;
+    #[verifier::external_body]
+    fn add(self, rhs: Uint128) -> (r: Uint128)
+//%if A
+        ensures r.0 as int == self.0 + rhs.0
+//%else
+        ensures self.0 + rhs.0 <= u128::MAX, r.0 as int == self.0 + rhs.0
+//%endif
+    { unimplemented!() } }
+impl AddSpecImpl for Uint128 {
+    open spec fn obeys_add_spec() -> bool { false }
+//%if A
+    open spec fn add_req(self, rhs: Uint128) -> bool { self.0 + rhs.0 <= u128::MAX }
+//%else
+    open spec fn add_req(self, rhs: Uint128) -> bool { true }
+//%endif
+    open spec fn add_spec(self, rhs: Uint128) -> Uint128 { arbitrary() }
+}
+impl ops::Sub for Uint128 { type Output = Uint128;
+    #[verifier::external_body]
+    fn sub(self, rhs: Uint128) -> (r: Uint128)
+//%if A
+        ensures r.0 as int == self.0 - rhs.0
+//%else
+        ensures self.0 >= rhs.0, r.0 as int == self.0 - rhs.0
+//%endif
+    { unimplemented!() } }
+impl SubSpecImpl for Uint128 {
+    open spec fn obeys_sub_spec() -> bool { false }
+//%if A
+    open spec fn sub_req(self, rhs: Uint128) -> bool { self.0 >= rhs.0 }
+//%else
+    open spec fn sub_req(self, rhs: Uint128) -> bool { true }
+//%endif
+    open spec fn sub_spec(self, rhs: Uint128) -> Uint128 { arbitrary() }
+}
+impl ops::Mul for Uint128 { type Output = Uint128;
+    #[verifier::external_body]
+    fn mul(self, rhs: Uint128) -> (r: Uint128)
+//%if A
+        ensures r.0 as int == self.0 * rhs.0
+//%else
+        ensures self.0 * rhs.0 <= u128::MAX, r.0 as int == self.0 * rhs.0
+//%endif
+    { unimplemented!() } }
+impl MulSpecImpl for Uint128 {
+    open spec fn obeys_mul_spec() -> bool { false }
+//%if A
+    open spec fn mul_req(self, rhs: Uint128) -> bool { self.0 * rhs.0 <= u128::MAX }
+//%else
+    open spec fn mul_req(self, rhs: Uint128) -> bool { true }
+//%endif
+    open spec fn mul_spec(self, rhs: Uint128) -> Uint128 { arbitrary() }
+}
+impl ops::Div for Uint128 { type Output = Uint128;
+    #[verifier::external_body]
+    fn div(self, rhs: Uint128) -> (r: Uint128)
+//%if A
+        ensures r.0 as int == (self.0 as int) / (rhs.0 as int)
+//%else
+        ensures rhs.0 != 0, r.0 as int == (self.0 as int) / (rhs.0 as int)
+//%endif
+    { unimplemented!() } }
+impl DivSpecImpl for Uint128 {
+    open spec fn obeys_div_spec() -> bool { false }
+//%if A
+    open spec fn div_req(self, rhs: Uint128) -> bool { rhs.0 != 0 }
+//%else
+    open spec fn div_req(self, rhs: Uint128) -> bool { true }
+//%endif
+    open spec fn div_spec(self, rhs: Uint128) -> Uint128 { arbitrary() }
+}
